@@ -506,7 +506,23 @@ func Check(scen string, in In) ([]*mc.Violation, []Obs) {
 	var vs []*mc.Violation
 	seenClause := map[string]bool{}
 	classes := map[string]Obs{}
+	kept := obs[:0:0]
 	for _, o := range obs {
+		if !o.Skipped {
+			kept = append(kept, o)
+		}
+	}
+	obs = kept
+	for _, o := range obs {
+		if o.Hang != "" {
+			// a library call that does not return is a violation whatever the verdict of the input
+			if !seenClause["terminates"] {
+				seenClause["terminates"] = true
+				vs = append(vs, mc.V(scen, "terminates", in, "deb.Load, reading Deb.Data and Close return (loading is total; other workers load other packages at the same time)",
+					o.Hang, append(features(in), "other-packages-loaded-concurrently")...))
+			}
+			continue
+		}
 		c := o.Class()
 		if _, ok := classes[c]; ok {
 			continue
@@ -534,6 +550,10 @@ func Check(scen string, in In) ([]*mc.Violation, []Obs) {
 // outcomeClass names the histogram bucket of an input's first observation.
 func outcomeClass(in In, o Obs) string {
 	switch {
+	case o.Hang != "":
+		return in.Verdict + ":NO-TERMINATION"
+	case o.Skipped:
+		return in.Verdict + ":not-executed-after-hang"
 	case o.Panic != "":
 		return in.Verdict + ":panic"
 	case !o.Loaded:
@@ -547,6 +567,9 @@ func outcomeClass(in In, o Obs) string {
 // ---------------------------------------------------------------- replay
 
 func Replay(scenario string, raw json.RawMessage) []*mc.Violation {
+	if scenario == "interleaved-debs" {
+		return replayMulti(scenario, raw)
+	}
 	var in In
 	if err := json.Unmarshal(raw, &in); err != nil {
 		return nil
